@@ -259,11 +259,37 @@ func PeekTag(reader Asn1Reader, offset int) (*asn1crypto.Tag, error) {
 	return &tag, nil
 }
 
+// maxTrustedLength is the number of bytes which are allocated upfront for a length taken from the (untrusted) input
+const maxTrustedLength = 81920
+
 func ReadExpectedBytes(reader Asn1Reader, byteSize int) ([]byte, error) {
+	if byteSize < 0 {
+		return nil, fmt.Errorf("invalid length %d", byteSize)
+	}
+	if byteSize > maxTrustedLength {
+		//do not allocate what a length field claims before the data has really arrived
+		return readExpectedBytesInChunks(reader, byteSize)
+	}
 	readBytes := make([]byte, byteSize)
 	err := ReadExpectedBytesRecursive(reader, byteSize, &readBytes, 0)
 	if err != nil {
 		return nil, err
+	}
+	return readBytes, nil
+}
+
+func readExpectedBytesInChunks(reader Asn1Reader, byteSize int) ([]byte, error) {
+	readBytes := make([]byte, 0, maxTrustedLength)
+	for len(readBytes) < byteSize {
+		chunkSize := byteSize - len(readBytes)
+		if chunkSize > maxTrustedLength {
+			chunkSize = maxTrustedLength
+		}
+		chunk, err := ReadExpectedBytes(reader, chunkSize)
+		if err != nil {
+			return nil, err
+		}
+		readBytes = append(readBytes, chunk...)
 	}
 	return readBytes, nil
 }
